@@ -214,6 +214,15 @@ def beamCX (E : Ext α) (cf : α) (wl : α) (extrapolate : Bool) (c : CXTable α
                     | none => Out.val 0
                     | some rate => Out.val rate
 
+/-- `beamCX` behind the guard that `evaluate` has for the other classes.  `guardTD = false` is the code as it is
+(only the energy is guarded, inside `beamCX`); `guardTD = true` is what the generated class table will say once
+`if energy <= 0 or temperature <= 0 or density <= 0: return 0` is the leading guard — the driver reads the flag from
+`Gen/OpenAdasPolicy.lean`, so the model follows the source without being edited. -/
+def beamCXGuarded (guardTD : Bool) (E : Ext α) (cf : α) (wl : α) (extrapolate : Bool) (c : CXTable α)
+    (energy temperature density zeff bfield : α) : Out α :=
+  if guardTD = true ∧ (energy ≤ 0 ∨ temperature ≤ 0 ∨ density ≤ 0) then Out.val 0
+  else beamCX E cf wl extrapolate c energy temperature density zeff bfield
+
 /-- every `Null*` class: `evaluate` returns 0.0 -/
 def nullRate : Out α := Out.val 0
 
